@@ -12,7 +12,7 @@ NT == Len(Traces)
 VARIABLES t, l
 ASSUME \A i \in 1 .. NT : TLCSet(i, 1)
 Ev == Traces[t][l]
-TInit == t \in 1 .. NT /\ l = 2 /\ SInit(Traces[t][1].scripts)
+TInit == t \in 1 .. NT /\ l = 2 /\ SInit(Traces[t][1].scripts, Traces[t][1].hw)
 TStep ==
   /\ l <= Len(Traces[t])
   /\ l' = l + 1 /\ t' = t
@@ -23,7 +23,7 @@ TStep ==
         /\ Ev.kind = "flt" => Ev.v = Tab(Ev.snapidx)
      \/ /\ Ev.ev = "end"
         /\ Finished
-        /\ Ev.str = str /\ Ev.mem = mem /\ Ev.idx = idx /\ Ev.fval = fval
+        /\ Ev.str = str /\ Ev.mem = mem /\ Ev.idx = idx /\ Ev.fval = fval /\ Ev.hw = hw
         /\ Agree
         /\ UNCHANGED svars
 TSpec == TInit /\ [][TStep]_<<svars, t, l>>
